@@ -22,6 +22,9 @@ RULE = ("chunk_get: every entry of a reply catalogue (right content, other chunk
         "(authentic at several counters, forged = signed by another key, foreign-owned but encrypted to the "
         "owner, unsigned, signature over another counter / other data, authentic but encrypted elsewhere or "
         "not a ciphertext, wrong/invalid header kinds, junk and chunk bodies) as Ok reply and as SplitRecord "
+        "maps; every returned record additionally keyed with the requested key, with the key its (substituted) "
+        "content would honestly live under, or with an unrelated key -- for chunk reads, data-map reads and vault "
+        "reads, on the Ok arm and on the elements of SplitRecord "
         "maps of 1, 2 (exhaustive) and 3 (sampled; exhaustive in the thorough tier) versions, plus network "
         "errors; whole-data reads with substituted / flipped / truncated / re-kinded / missing chunks and "
         "data maps.  A case is distinct/non-trivial by (op, shape of the reply, outcome)")
@@ -93,18 +96,21 @@ def rec_view(spec, uid):
     return hdr, "BJunk"
 
 
-def rec_term(spec, uid):
+def rec_term(spec, uid, key_hex):
+    """`key_hex`: the key the harness put on this record (it reports them): the adversary's choice"""
     hdr, body = rec_view(spec, uid)
-    return "{| r_hdr := %s; r_body := %s |}" % (copt(hdr, cN), body)
+    return "{| r_key := %s; r_hdr := %s; r_body := %s |}" % (cN(int(key_hex, 16) if key_hex else 0), copt(hdr, cN), body)
 
 
-def reply_term(reply, order):
+def reply_term(reply, order, keys=None):
+    keys = keys or []
+    kof = lambda i: keys[i] if i < len(keys) else ""
     if reply["t"] in ("rec", "raw"):
-        return "(ROk %s)" % rec_term(reply, 0)
+        return "(ROk %s)" % rec_term(reply, 0, kof(0))
     if reply["t"] == "err":
         return "(RErr %s)" % {"NotFound": "GNotFound", "Timeout": "GTimeout", "KindMismatch": "GKindMismatch",
                              "DoesNotMatch": "GDoesNotMatch", "NotEnoughCopies": "GNotEnoughCopies"}[reply["e"]]
-    return "(RErr (GSplit %s))" % clist([rec_term(reply["recs"][i], i) for i in order])
+    return "(RErr (GSplit %s))" % clist([rec_term(reply["recs"][i], i, kof(i)) for i in order])
 
 
 def records_in(reply, order=None):
@@ -203,6 +209,24 @@ def gen_chunk_get(rng, n_contents):
                                                             rec(KIND_PAD, mk_pad(OWNER, 6, 2, {"t": "good", "by": OWNER}))]}))
         for name, r in reps:
             cases.append({"op": "chunk_get", "kind": "chunk_get/" + name, "addr": addr, "reply": r})
+        # the key carried by the returned record is the holders' choice: {requested, the key the
+        # substituted content would honestly live under, unrelated} x {requested content, other chunk,
+        # wrong kind, scratchpad of the right / a foreign owner}, as Ok reply and inside split maps
+        values = [("right", rec(KIND_CHUNK, chunk_body(a))), ("other", rec(KIND_CHUNK, chunk_body(other))),
+                  ("flipped", rec(KIND_CHUNK, chunk_body(flipped))),
+                  ("kind5", rec(KIND_PAD, chunk_body(other))), ("kind0", rec(0, chunk_body(other))),
+                  ("pad-own", rec(KIND_PAD, mk_pad(OWNER, 2, 1, {"t": "good", "by": OWNER}))),
+                  ("pad-foreign", rec(KIND_PAD, mk_pad(1, 2, 2, {"t": "good", "by": 1}))),
+                  ("pad-as-chunk", rec(KIND_CHUNK, mk_pad(1, 2, 3, {"t": "good", "by": 1})))]
+        for kname in ("content", "unrelated", "requested"):
+            for vname, r in values:
+                if kname == "requested" and vname in ("right", "other", "flipped"):
+                    continue        # already above
+                cases.append({"op": "chunk_get", "kind": "chunk_get/key-%s/%s" % (kname, vname), "addr": addr,
+                              "reply": dict(r, key=kname)})
+            cases.append({"op": "chunk_get", "kind": "chunk_get/key-%s/split" % kname, "addr": addr,
+                          "reply": {"t": "split", "recs": [dict(values[1][1], key=kname), dict(values[5][1], key=kname),
+                                                           dict(values[6][1], key=kname)], "first": rng.randrange(3)}})
         # a requested address that is nobody's hash
         cases.append({"op": "chunk_get", "kind": "chunk_get/raw-addr", "addr": {"hex": "%064x" % rng.getrandbits(256)},
                       "reply": rec(KIND_CHUNK, chunk_body(a))})
@@ -216,6 +240,11 @@ def gen_vault(rng, tier):
         cat = pad_catalogue(base)
         for name, r in cat:
             cases.append({"op": "vault", "kind": "vault/ok/" + name, "owner": OWNER, "reply": r})
+            for kname in ("content", "unrelated"):
+                cases.append({"op": "vault", "kind": "vault/ok-key-%s/%s" % (kname, name), "owner": OWNER,
+                              "reply": dict(r, key=kname)})
+                cases.append({"op": "vault", "kind": "vault/split1-key-%s/%s" % (kname, name), "owner": OWNER,
+                              "reply": {"t": "split", "recs": [dict(r, key=kname)]}})
             cases.append({"op": "vault", "kind": "vault/split1/" + name, "owner": OWNER,
                           "reply": {"t": "split", "recs": [r]}})
         pairs = list(itertools.combinations(range(len(cat)), 2))
@@ -223,13 +252,17 @@ def gen_vault(rng, tier):
             pairs = rng.sample(pairs, 40)
         for i, j in pairs:
             for first in ((i, j) if (tier != "quick" or base == bases[0]) else (rng.choice((i, j)),)):
+                ki, kj = (("requested", "requested") if first == i else
+                          (rng.choice(["content", "unrelated"]), rng.choice(["requested", "content", "unrelated"])))
                 cases.append({"op": "vault", "kind": "vault/split2", "owner": OWNER,
-                              "reply": {"t": "split", "recs": [cat[i][1], cat[j][1]], "first": [i, j].index(first)}})
+                              "reply": {"t": "split", "recs": [dict(cat[i][1], key=ki), dict(cat[j][1], key=kj)],
+                                        "first": [i, j].index(first)}})
         triples = list(itertools.combinations(range(len(cat)), 3))
         if tier == "quick":
             triples = rng.sample(triples, 120 if base == bases[0] else 30)
         for t in triples:
-            recs = [cat[i][1] for i in t]
+            # every element of a split map carries a key of the holders' choosing
+            recs = [dict(cat[i][1], key=rng.choice(["requested", "content", "unrelated"])) for i in t]
             cases.append({"op": "vault", "kind": "vault/split3", "owner": OWNER,
                           "reply": {"t": "split", "recs": recs, "first": rng.randrange(3)}})
     for e in ("NotFound", "Timeout", "KindMismatch", "DoesNotMatch", "NotEnoughCopies"):
@@ -251,6 +284,9 @@ def gen_data(rng, tier):
         tampers += [
             [{"target": target, "with": {"t": "chunk_of", "i": 1 if target != 1 else 2}}],
             [{"target": target, "with": {"t": "flip", "at": 0, "bit": 0}}],
+            # the whole record replaced by a complete, well-formed record of another chunk (its own key)
+            [{"target": target, "with": {"t": "chunk_of", "i": 1 if target != 1 else 2, "own_key": True}}],
+            [{"target": target, "with": {"t": "flip", "at": 3, "bit": 1, "own_key": True}}],
             [{"target": target, "with": {"t": "flip", "at": 7, "bit": 6}}],
             [{"target": target, "with": {"t": "truncate"}}],
             [{"target": target, "with": {"t": "kind", "kind": 0}}],
@@ -305,7 +341,7 @@ def oracle(c, o):
                           % (o["addr"][:12], sha3(val).hex()[:12])))
         r = c["reply"]
         honest = r["t"] == "rec" and r.get("kind") == KIND_CHUNK and r["body"]["t"] == "chunk" \
-            and sha3(bytes.fromhex(r["body"]["hex"])) == asked
+            and sha3(bytes.fromhex(r["body"]["hex"])) == asked and r.get("key", "requested") == "requested"
         if honest and not (o["res"] == "ok" and o["value"] == r["body"]["hex"]):
             v.append(("honest-chunk-rejected", "an honest reply (the requested chunk) was not returned: %s" % o))
         return v
@@ -341,7 +377,7 @@ def oracle(c, o):
                       % (got_counter, max(b["counter"] for b in wf_auth))))
         # honest holders: a single well-formed authentic version, or a split of well-formed authentic versions
         all_honest = recs and all(r["t"] == "rec" and r.get("kind") == KIND_PAD and pad_is_authentic(r["body"], owner)
-                                  for _, r in recs)
+                                  and r.get("key", "requested") == "requested" for _, r in recs)
         if all_honest:
             top = max(r["body"]["counter"] for _, r in recs)
             if not (p["res"] == "ok" and not p["is_new"] and p["counter"] == top):
@@ -355,7 +391,8 @@ def oracle(c, o):
         if g["res"] == "ok" and not g["eq"]:
             v.append(("data-substituted", "%s read returned Ok with bytes different from the uploaded data (tamper %s)"
                       % (c["mode"], c.get("tamper"))))
-        harmless = all(t["with"]["t"] == "chunk_of" and t["target"] == t["with"]["i"] for t in c.get("tamper", []))
+        harmless = all(t["with"]["t"] == "chunk_of" and t["target"] == t["with"]["i"] and not t["with"].get("own_key")
+                       for t in c.get("tamper", []))
         if harmless and g["res"] != "ok":
             v.append(("honest-data-rejected", "honest network but the read failed: %s" % g))
         for ch in o["chunks"]:
@@ -379,10 +416,11 @@ def model_term(c, o):
         asked = int(o["asked"], 16)
         order = o.get("order") or []
         out = coq_sum_bytes_or_code(o["value"] if o["res"] == "ok" else None, o.get("code", ""))
-        return "agree_chunk_get %s %s %s %s" % (chunk_table(c), reply_term(c["reply"], order), cN(asked), out)
+        return "agree_chunk_get %s %s %s %s" % (chunk_table(c), reply_term(c["reply"], order, o.get("keys")), cN(asked), out)
     if c["op"] == "vault":
         order = o.get("order") or []
-        rp = reply_term(c["reply"], order)
+        rp = reply_term(c["reply"], order, o.get("keys"))
+        key = cN(int(o["asked_key"], 16))
         f, p = o["fetch"], o["pad"]
         owner = c.get("owner", OWNER)
         if f["res"] == "ok":
@@ -395,7 +433,7 @@ def model_term(c, o):
             pout = "None"
         else:
             return "false"      # get_or_create_scratchpad can only fail with VaultBadOwner: unreachable after the repair
-        return "agree_vault %s %s %s && agree_vault_pad %s %s %s" % (rp, cN(owner), out, rp, cN(owner), pout)
+        return "agree_vault %s %s %s %s && agree_vault_pad %s %s %s %s" % (key, rp, cN(owner), out, key, rp, cN(owner), pout)
     if c["op"] == "data":
         return data_term(c, o)
     return None
@@ -416,9 +454,9 @@ def data_term(c, o):
         pos = n if t["target"] == "root" else t["target"] % n
         w = t["with"]
         if w["t"] == "chunk_of":
-            m = "FAuth" if (w["i"] % n) == pos else "FOtherHash"
+            m = "FAuth" if (w["i"] % n) == pos else ("FOtherRecord" if w.get("own_key") else "FOtherHash")
         elif w["t"] in ("flip", "truncate"):
-            m = "FOtherHash"
+            m = "FOtherRecord" if w.get("own_key") else "FOtherHash"
         elif w["t"] == "kind":
             m = "FAuth" if w["kind"] == KIND_CHUNK else ("FKind" if w["kind"] <= 7 else "FHeader")
         elif w["t"] == "err":
@@ -436,10 +474,11 @@ def data_term(c, o):
 
 def show(c, o):
     if c["op"] == "chunk_get":
-        return "chunk_get (tab_hash %s) %s %s" % (chunk_table(c), reply_term(c["reply"], o.get("order") or []), cN(int(o["asked"], 16)))
+        return "chunk_get (tab_hash %s) %s %s" % (chunk_table(c), reply_term(c["reply"], o.get("order") or [], o.get("keys")), cN(int(o["asked"], 16)))
     if c["op"] == "vault":
-        rp = reply_term(c["reply"], o.get("order") or [])
-        return "(fetch_and_decrypt_vault %s %s, get_vault %s %s)" % (rp, cN(c.get("owner", OWNER)), rp, cN(c.get("owner", OWNER)))
+        rp = reply_term(c["reply"], o.get("order") or [], o.get("keys"))
+        key = cN(int(o["asked_key"], 16))
+        return "(fetch_and_decrypt_vault %s %s %s, get_vault %s %s %s)" % (key, rp, cN(c.get("owner", OWNER)), key, rp, cN(c.get("owner", OWNER)))
     return "tt"
 
 
